@@ -48,7 +48,11 @@ func newCacheJanitor[MetadataT any](cfg *config.Config, interval time.Duration, 
 		// Notifications may arrive out of order: pass on the value that is current now.
 		newInterval := cfg.Cache.CleanupInterval.Read()
 		slog.Info("Cache cleanup interval changed", "new_interval", newInterval)
-		j.intervalChanged <- newInterval.Cast()
+		// A notification that was on its way when the janitor was stopped must not wait for a reader that is gone.
+		select {
+		case j.intervalChanged <- newInterval.Cast():
+		case <-j.stopChan:
+		}
 	}))
 
 	return j
